@@ -9,6 +9,23 @@ STATIC_NOTE = ('Static analysis only: /repo is parsed with ast on every run; pmu
                'polynomials), and the enumerated idiom tables in pmv/rules. ')
 
 CLAIMED = {
+    'C01': dict(
+        technique='abstract interpretation of every mode getter into exact rational normal forms with exp/ln/'
+                  'integral atoms; symbolic differentiation; textbook reference forms in the same domain; '
+                  'interpretation of StatMech.get_quantity with uninterpreted modes; interpretation of the real '
+                  'constructors/setters for cached fields',
+        text='Proves over the reals, for all parameter values, T and P at once and for every mode class '
+             '(resolved through the MRO): G=H-S, F=U-S, H-U and Cp-Cv = 1 with ideal-gas translation / 0 without, '
+             'Cv=d(TU)/dT, Cp=d(TH)/dT, dS/dT=Cp/T, dS/dlnP=-1 for translation, agreement of each closed form '
+             'with its textbook expression; that the species total is the sum/product of the verbose per-mode '
+             'list, references vanish when switched off, per-species keyword blocks are routed, species-level '
+             'G=H-S and F=U-S incl. entropy of elements; that imaginary modes are dropped/substituted and every '
+             'cached field is refreshed by the setters; that every documented point-group label resolves to its '
+             'documented symmetry number.',
+        note=STATIC_NOTE + 'Not decided: invariance of geometry-derived parameters under rigid motions and atom '
+             'permutations (ASE numerics); LSR/BEP energies beyond identities; IEEE rounding. pmutt.constants is '
+             'modelled as verified by C12.',
+        ref='DESIGN.md section 4 C01'),
     'C02': dict(
         technique='abstract interpretation of the polynomial evaluators into exact rational normal forms '
                   '(ast -> Fraction polynomials with exp/ln atoms), symbolic differentiation, ordering '
